@@ -292,7 +292,11 @@ def compositions(iface, tree):
     W = __import__("vf.props.c20", fromlist=["wrappers"]).wrappers(iface)
     wrapped = W["E"](W["M"](inner))
     handle = m.Files(tree.dir, handle_404=m.PlainTextResponse("custom 404", 404))
-    return {"mounts": inner, "hosts": hosts, "middleware-over-mounts": wrapped, "files-handle404": handle, "pages-private": m.Pages(tree.dir, cacheability="private", max_age=5)}
+    # routers inside routers (the inner one sees the same path) and a router below a mount below a router: the view sees the
+    # parameters of the innermost route only
+    deep = m.Router(("/api/items/{i:int}", echo_app(iface, False, "inner-int")), ("/api/{kind}/{name}", echo_app(iface, False, "inner-two")), ("/api/any/{p:any}", echo_app(iface, False, "inner-any")))
+    nested = m.Router(("/api/{section}/{rest:any}", deep), ("/docs/{page}", m.Subpaths(("/docs", m.Router(("/{leaf}", echo_app(iface, False, "below-mount")))), ("", leaf))), ("/{first}", echo_app(iface, False, "outer-only")))
+    return {"nested-routers": nested, "mounts": inner, "hosts": hosts, "middleware-over-mounts": wrapped, "files-handle404": handle, "pages-private": m.Pages(tree.dir, cacheability="private", max_age=5)}
 
 
 APP_PATHS = ["", "/", "/docs", "/docs/", "/docs/guide", "/docs/guide/", "/docs/guide/page", "/docs/x", "/docs/x.html", "/docs/nofile", "/docs/../file.txt", "/docs/é.txt", "/docs/empty", "/docs/empty/",
@@ -316,10 +320,10 @@ def file_cases():
 
 def shards(tier, seed):
     out = [("view", k, 8) for k in range(8)]
-    out += [("bodies",), ("sequences",), ("jsonbodies",)]
+    out += [("bodies",), ("sequences",), ("jsonbodies",), ("headernames",)]
     out += [("small", k, 8) for k in range(8)]
     out += [("streams",), ("files",)]
-    out += [("apps", name) for name in ("mounts", "hosts", "middleware-over-mounts", "files-handle404", "pages-private")]
+    out += [("apps", name) for name in ("mounts", "hosts", "middleware-over-mounts", "files-handle404", "pages-private", "nested-routers")]
     out += [("staticpaths", k, 4) for k in range(4)]
     out += [("hostile", name) for name in ("Accept", "Content-Type", "Content-Length", "Cookie", "Date", "Referer", "Host", "Range", "If-Range", "If-None-Match", "If-Modified-Since", "path", "query")]
     return out
@@ -340,6 +344,18 @@ def run_shard(desc, tier):
         for bk, areq in body_requests(tier):
             compare(r, f"echo-body:{bk}", apps, areq, f"POST {bk} body in chunks {[len(c) for c in areq.chunks]}")
         r.sample({"recipe": "echo view with body", "body_kind": "multipart2", "chunking": "every two-way split"})
+    elif kind == "headernames":
+        # header names that contain the text a gateway adds or strips (HTTP-, Content-), repeat it, or differ only in case; one
+        # and two headers per request
+        apps = {i: echo_app(i) for i in ("wsgi", "asgi")}
+        names = ["X-HTTP-Method-Override", "HTTP-X", "Http2-Settings", "X-Forwarded-HTTP-Version", "HTTP", "X-HTTP", "Http-Http-Http", "Content-Type-X", "X-Content-Length", "Content-MD5", "Content-Language",
+                 "x-lower", "X-UPPER", "Te", "Accept-Language", "Host-Name", "Cookie2", "Range-Unit", "If-Match"]
+        for a in names:
+            compare(r, "echo", apps, SV.AReq(headers=[(a, "v1")]), f"GET with header {a}: v1")
+            for b in names:
+                if a.lower() != b.lower():
+                    compare(r, "echo", apps, SV.AReq(headers=[(a, "v1"), (b, "v2"), ("Host", "h.org")]), f"GET with headers {a}, {b}")
+        r.sample({"recipe": "echo view", "header_names": names[:6]})
     elif kind == "jsonbodies":
         # JSON texts in every encoding json.loads() would guess from bytes, with a byte order mark, with encoded lone surrogates,
         # invalid bytes and odd values, under Content-Type with no / known / unknown charset: both interfaces must read the same value
@@ -422,6 +438,14 @@ def run_shard(desc, tier):
             for dn in ("plain.txt", "é.txt", "中.txt"):
                 apps = {i: (lambda i=i: (lambda *a: mod(i).FileResponse(t.file, download_name=dn, content_type="text/x-c04")(*a)))() for i in ("wsgi", "asgi")}
                 compare(r, f"file:download_name={dn}", apps, SV.AReq(), "GET")
+            # one FileResponse object per interface answering a request sequence: the two stacks must agree on every answer
+            ranges = [None, "bytes=0-3", "bytes=0-1,4-7", "bytes=99-", "junk", "bytes=-8"]
+            for seq in itertools.permutations(range(len(ranges)), 3):
+                shared = {i: mod(i).FileResponse(t.file, chunk_size=4) for i in ("wsgi", "asgi")}
+                for step, ri in enumerate(seq):
+                    for method in (("GET", "HEAD") if step == 2 else ("GET",)):
+                        areq = SV.AReq(method=method, headers=[("Range", ranges[ri])] if ranges[ri] else [])
+                        compare(r, "file:one-object", shared, areq, f"one FileResponse object per stack, Range sequence {[ranges[i] for i in seq[:step + 1]]}, answer {step} ({method})")
             r.sample({"recipe": "FileResponse chunk_size=4", "request": {"Range": "bytes=0-7"}})
         finally:
             t.close()
